@@ -178,7 +178,25 @@ pub fn run(ctx: &mut Ctx) {
             // one engine in four receives its last resource late, after the requests have been
             // asked once without it (answers must follow the store, not the history of lookups)
             let late = r.chance(1, 4) && !store.is_empty();
-            let mut e = build_engine_with(&rules, opts, true, optimize, if late { &store[..store.len() - 1] } else { &store[..] });
+            // ... and one in four first holds older versions of the same resources (other content,
+            // kind or permission under the same names) and is then refreshed with the real ones
+            let refreshed = !late && r.chance(1, 3);
+            let older: Vec<ResDef> = store
+                .iter()
+                .map(|d| {
+                    let mut o = d.clone();
+                    match r.below(3) {
+                        0 => o.content = format!("older-{}", o.content),
+                        1 => o.perm = if o.perm == 0 { 1 } else { 0 },
+                        _ => o.kind = if o.kind == "application/javascript" { "image/gif".into() } else { "application/javascript".into() },
+                    }
+                    o
+                })
+                .collect();
+            let mut e = build_engine_with(&rules, opts, true, optimize, if late { &store[..store.len() - 1] } else if refreshed { &older[..] } else { &store[..] });
+            if refreshed {
+                e.use_resources(store.iter().map(|d| d.to_resource()));
+            }
             if late {
                 for k in 0..3 {
                     let url = match k {
